@@ -132,6 +132,13 @@ SWEEP_PROGS = [
     '(ann): int = 1\n(obj.attr): str\nclass K:\n    (field): list = []\n    plain: int\n', 'a: int = 1\n(b): int\nc.d: int = 2\ne[0]: int\n',
     'for (i) in j: pass\nwith a as (b): pass\n[k for (k) in l]\n(m := n)\no = p = q\n',
 ]
+SEQ_PROGS = ['del (a), (b), (c)\n', 'x = (a), (b), (c)\n', 'for (i), (j) in (k), (l): pass\n', 'def f():\n    return (a), (b)\n', 'import a, b, c\n', 'from m import a, b, c\n',
+             'def g():\n    global a, b, c\n    nonlocal_ = 0\n', 'with (a), (b): pass\n', 'with (a) as (b), (c) as (d): pass\n', '(a) = (b) = c\n', 'x = a[(i), (j)]\n', '@(d1)\n@(d2)\ndef f(): pass\n',
+             'class K((A), (B), k=(1), j=(2)): pass\n', 'f((a), (b), k=(1), j=(2))\n', 'z = (a) and (b) and (c)\n', 'match v:\n  case (a) | (b) | (c): pass\n  case (a), (b): pass\n  case [(a), (b)]: pass\n  case C((a), (b), k=(c), j=(d)): pass\n',
+             'x = [(a), (b)]\ny = {(a), (b)}\nz = ((a), (b))\n', 'x = [i for i in (j) if (k) if (l)]\n', 'def f[T, U](a, b=(1), *, c=(2), d=(3)): pass\n', 'x = {**(a), (b): (c), **(d)}\n',
+             'if a:\n    del (a), (b)\nelif b:\n    x = (a), (b)\n']
+IDENT_PROG = ('import a.b as c\nfrom m.n import p as q\nfrom . import r\ndef f(a, *b, k=1, **c): pass\nclass K: pass\nx.y = z\nf(k=1)\ndef h():\n    global g\n    nonlocal_ = 1\n'
+              'match v:\n  case {**r}: pass\n  case [*s]: pass\n  case C(k=1): pass\n  case t as u: pass\ntry: pass\nexcept E as e: pass\ntype T[U, *V, **W] = U\n')
 INDENT_PROGS = ['def f():\n    b\'\'\'x\n    y\'\'\'\n    return 1\n', 'class K:\n    def m(self):\n        b\'\'\'p\n  q\'\'\'\n        \'\'\'s\n        t\'\'\'\n        z = b\'\'\'u\n        v\'\'\'\n        return z\n',
                 'def g():\n    \'\'\'doc\n    more\'\'\'\n    x = \'\'\'a\n    b\'\'\'\n    f\'\'\'c{x}\n    d\'\'\'\n    rb\'\'\'e\n    f\'\'\'\n    return x\n']
 PRIM_PROGS = ['x = 1.0.real\n', 'x = [1for y in z]\n', 'x = 1if y else 2\n', 'x = "a".upper()\n', 'x = not"a"\n', 'def f():\n    return"a" + b\n', 'x = "a"if"b"else"c"\n',
@@ -195,6 +202,79 @@ def stage_structural_sweep(ctx: Ctx):
                         if d:
                             ctx.violation(f'pos|indent-move|{d[0].split(": ")[-1][:40]}', 'after moving a statement to another indentation level the source parsed from scratch differs from the live tree',
                                           {**rec, 'result_src': root.src, 'diffs': d})
+            # (e) elements of sequences whose elements are parenthesized (the end of the element is not the end of its text): delete / replace / append at every index
+            for qsrc in SEQ_PROGS:
+                qprobe = fst.FST(qsrc, 'exec')
+                jobs = []
+                for f in qprobe.walk(True):
+                    for field in f.a._fields:
+                        v = getattr(f.a, field, None)
+                        if isinstance(v, list) and len(v) >= 2 and isinstance(v[0], ast.AST) and field not in ('body', 'orelse', 'finalbody', 'handlers', 'cases', 'type_ignores', 'ops', 'comparators'):
+                            for i in range(len(v)):
+                                jobs += [(qprobe.child_path(f), field, i, how) for how in ('del', 'del-tail', 'rep-par', 'rep-plain', 'ins-par')]
+                            jobs.append((qprobe.child_path(f), field, len(v), 'ins-par'))
+                for path, field, i, how in jobs:
+                    root = fst.FST(qsrc, 'exec')
+                    f = root.child_from_path(path)
+                    n = len(getattr(f.a, field))
+                    new = {'names': 'zz', 'items': '(zz)', 'decorator_list': '@(zz)', 'keywords': 'zz=(1)', 'patterns': '(zz)', 'type_params': 'Z'}.get(field, '(zz)')
+                    if isinstance(f.a, (ast.Global, ast.Nonlocal, ast.Import, ast.ImportFrom)):
+                        new = 'zz'
+                    rec = {'src': qsrc, 'node': repr(f), 'field': field, 'idx': i, 'how': how}
+                    left = n - 1 if how == 'del' else i if how == 'del-tail' else n
+                    if left < (2 if isinstance(f.a, (ast.BoolOp, ast.MatchOr)) else 1):
+                        continue      # a (documented) incomplete node
+                    try:
+                        if how == 'del':
+                            f.put_slice(None, i, i + 1, field)
+                        elif how == 'del-tail':
+                            if i == 0:
+                                continue
+                            f.put_slice(None, i, n, field)
+                        elif how == 'rep-par':
+                            f.put_slice(new, i, i + 1, field, one=True)
+                        elif how == 'rep-plain':
+                            f.put_slice(new.replace('(', '').replace(')', ''), i, i + 1, field, one=True)
+                        else:
+                            f.put_slice(new, i, i, field, one=True)
+                    except Exception as e:
+                        ctx.dist['sweep:par-elements:refused'] = ctx.dist.get('sweep:par-elements:refused', 0) + 1
+                        d = reparse_diffs(root)
+                        if d:
+                            ctx.violation(f'sweep-raise-dirty|par-elements|{type(e).__name__}', 'a refused slice edit left an inconsistent tree', {**rec, 'error': repr(e)[:200], 'diffs': d})
+                        continue
+                    ctx.tick(('sweep-par', qsrc, str(path), field, i, how), 'sweep:par-elements')
+                    d = reparse_diffs(root)
+                    if d:
+                        ctx.violation(f'pos|par-elements|{type(f.a).__name__}.{field}|{how}', 'after a slice edit on a sequence with parenthesized elements the source parsed from scratch differs from the live tree',
+                                      {**rec, 'result_src': root.src, 'diffs': d})
+            # (f) identifiers written with compatibility characters put to every identifier field: the parser folds them (NFKC), so must the tree
+            probe_i = fst.FST(IDENT_PROG, 'exec')
+            sites = []
+            for f in probe_i.walk(True):
+                for fld in f.a._fields:
+                    v = getattr(f.a, fld, None)
+                    if isinstance(v, str) and not isinstance(f.a, ast.Constant):
+                        sites.append((probe_i.child_path(f), fld, None))
+                    elif isinstance(v, list) and v and isinstance(v[0], str):
+                        sites += [(probe_i.child_path(f), fld, i) for i in range(len(v))]
+            for path, fld, idx in sites:
+                for new in ('\ufb01le', '\uff4f\uff53', '\U0001d403x', '\uff4f\uff53.\ufb01le', 'pl\u00e4in'):
+                    root = fst.FST(IDENT_PROG, 'exec')
+                    f = root.child_from_path(path)
+                    if '.' in new and not ((isinstance(f.a, ast.alias) and fld == 'name') or fld == 'module'):
+                        continue
+                    rec = {'src': IDENT_PROG, 'node': repr(f), 'field': fld, 'idx': idx, 'identifier': new}
+                    try:
+                        f.put(new, idx, fld) if idx is not None else f.put(new, fld)
+                    except Exception as e:
+                        ctx.dist['sweep:identifier:refused'] = ctx.dist.get('sweep:identifier:refused', 0) + 1
+                        continue
+                    ctx.tick(('sweep-ident', str(path), fld, idx, new), 'sweep:identifier')
+                    d = reparse_diffs(root)
+                    if d:
+                        ctx.violation(f'pos|identifier-put|{type(f.a).__name__}.{fld}', 'after putting an identifier the source parsed from scratch differs from the live tree',
+                                      {**rec, 'result_src': root.src, 'diffs': d})
             # (c) primitives put to Constant.value where the constant touches its neighbours
             for csrc in PRIM_PROGS:
                 cprobe = fst.FST(csrc, 'exec')
